@@ -153,7 +153,7 @@ pub fn known_keys() -> Vec<String> {
         "SequenceAt", "SequenceLength", "ConcatFromSequence", "SplitToSequence", "fused:AddSoftmax",
         "fused:FusedMatMul", "fused:RepeatInterleave", "fused:GroupedQueryAttentionMatMul", "Attention",
         "RotaryEmbedding", "Scatter", "GridSample", "NonMaxSuppression", "com.microsoft/MultiHeadAttention",
-        "com.microsoft/GroupQueryAttention",
+        "com.microsoft/GroupQueryAttention", "com.microsoft/RotaryEmbedding",
         "TI:MatMul", "TI:Add", "TI:Sub", "TI:Concat", "TI:Expand", "TI:Slice", "TI:Split", "TI:Mul",
     ] {
         v.push(s.to_string());
@@ -957,7 +957,10 @@ fn gen_inner(key: &str, rng: &mut SplitMix64) -> Option<Gen> {
             (vec![ai("num_heads", nh as i64)], inputs, n_out)
         }
         "com.microsoft/GroupQueryAttention" => {
-            let (b, kvh, rep, h, s, past) = (1 + rng.upto(1), 1 + rng.upto(1), 1 + rng.upto(1), 2 * (1 + rng.upto(1)), 1 + rng.upto(2), rng.upto(2));
+            let (mut b, kvh, rep, h, s, past) = (1 + rng.upto(1), 1 + rng.upto(1), 1 + rng.upto(1), 2 * (1 + rng.upto(1)), 1 + rng.upto(2), rng.upto(2));
+            if s > 1 {
+                b = 1; // a prompt on top of a past context is only supported for batch size 1
+            }
             let nh = kvh * rep;
             let mut inputs = vec![it(t(rng, Dt::F32, &[b, s, nh * h])), it(t(rng, Dt::F32, &[b, s, kvh * h])), it(t(rng, Dt::F32, &[b, s, kvh * h]))];
             let with_past = rng.chance(3, 4);
@@ -971,6 +974,11 @@ fn gen_inner(key: &str, rng: &mut SplitMix64) -> Option<Gen> {
             inputs.push(ivec(&vec![(p + s) as i64 - 1; b]));
             inputs.push(iscalar_i((p + s) as i64));
             (vec![ai("num_heads", nh as i64), ai("kv_num_heads", kvh as i64)], inputs, 3)
+        }
+        "com.microsoft/RotaryEmbedding" => {
+            let (b, h, s, d, maxpos) = (1 + rng.upto(1), 1 + rng.upto(1), 1 + rng.upto(2), 2 * (1 + rng.upto(1)), 3 + rng.upto(2));
+            let pos = LT::rand(rng, Dt::I32, &[b, s], 0, maxpos as i64 - 1);
+            (none, vec![it(t(rng, Dt::F32, &[b, h, s, d])), it(pos), it(t(rng, Dt::F32, &[maxpos, d / 2])), it(t(rng, Dt::F32, &[maxpos, d / 2]))], 1)
         }
         "RotaryEmbedding" => {
             let (b, h, s, d) = (1 + rng.upto(1), 1 + rng.upto(1), 1 + rng.upto(2), 2 * (1 + rng.upto(1)));
